@@ -204,7 +204,16 @@ func (e *Engine) exec(fr *Frame, instr ssa.Instruction) {
 		} else if s.Off == 0 && len(e.st.arrayForRead(s.Arr).E) == n {
 			e.set(fr, in, s.Arr)
 		} else {
-			e.unsupported("SliceToArrayPointer with offset")
+			// a window into a larger array: the pointer is given a copy of the window. Exact for the
+			// conversion [N]T(s) (the pointer is dereferenced at once); a WRITE through such a pointer
+			// would not reach the original array — none of the interpreted code does that
+			src := e.st.arrayForRead(s.Arr)
+			cp := &ArrayV{E: make([]Value, n)}
+			for i := 0; i < n; i++ {
+				cp.E[i] = deepCopy(src.E[s.Off+i])
+			}
+			e.Res.Funcs["note:slice-to-array-pointer-window-copied"]++
+			e.set(fr, in, Ptr{Obj: e.st.alloc(cp, in.Type().(*types.Pointer).Elem(), "array-window")})
 		}
 	case *ssa.Store:
 		p := e.val(fr, in.Addr).(Ptr)
